@@ -1,7 +1,6 @@
 package memory
 
 import (
-	"bytes"
 	"maps"
 	"slices"
 
@@ -17,13 +16,36 @@ type batch struct {
 	// behaviour of the real key-value store. Hence, we store them and then flush them afterwards.
 	writes   []keyValue
 	writeMap map[string]keyValue
-	size     int
+	// Range deletions recorded on this batch, in order. They are applied at Write time,
+	// like pebble's range tombstones, and consulted by the batch's own reads.
+	ranges []keyValue
+	size   int
 }
 
 type keyValue struct {
 	key    string
 	value  []byte
 	delete bool
+	// rangeEnd is set for a range deletion of [key, rangeEnd)
+	rangeEnd    string
+	deleteRange bool
+	// position of this operation in the batch
+	seq int
+}
+
+// lookup returns the latest operation of this batch that affects key, if any.
+func (b *batch) lookup(key string) (keyValue, bool) {
+	val, ok := b.writeMap[key]
+	for i := len(b.ranges) - 1; i >= 0; i-- {
+		r := b.ranges[i]
+		if ok && r.seq < val.seq {
+			break
+		}
+		if key >= r.key && key < r.rangeEnd {
+			return keyValue{key: key, delete: true}, true
+		}
+	}
+	return val, ok
 }
 
 func newBatch(db *Database) *batch {
@@ -41,7 +63,7 @@ func (b *batch) Get(key []byte, cb func(value []byte) error) error {
 	b.db.lock.RLock()
 	defer b.db.lock.RUnlock()
 
-	if val, ok := b.writeMap[string(key)]; ok {
+	if val, ok := b.lookup(string(key)); ok {
 		if val.delete {
 			return db.ErrKeyNotFound
 		}
@@ -64,7 +86,7 @@ func (b *batch) Has(key []byte) (bool, error) {
 	b.db.lock.RLock()
 	defer b.db.lock.RUnlock()
 
-	if val, ok := b.writeMap[string(key)]; ok {
+	if val, ok := b.lookup(string(key)); ok {
 		if val.delete {
 			return false, nil
 		}
@@ -92,6 +114,7 @@ func (b *batch) NewIterator(prefix []byte, withUpperBound bool) (db.Iterator, er
 		db:       tempDB,
 		writes:   slices.Clone(b.writes),
 		writeMap: maps.Clone(b.writeMap),
+		ranges:   slices.Clone(b.ranges),
 	}
 
 	// write the changes to the temporary db
@@ -108,7 +131,7 @@ func (b *batch) Put(key, value []byte) error {
 		return errBatchClosed
 	}
 
-	kv := keyValue{key: string(key), value: slices.Clone(value)}
+	kv := keyValue{key: string(key), value: slices.Clone(value), seq: len(b.writes)}
 	b.writes = append(b.writes, kv)
 	b.writeMap[string(key)] = kv
 	b.size += len(key) + len(value)
@@ -120,7 +143,7 @@ func (b *batch) Delete(key []byte) error {
 		return errBatchClosed
 	}
 
-	kv := keyValue{key: string(key), delete: true}
+	kv := keyValue{key: string(key), delete: true, seq: len(b.writes)}
 	b.writes = append(b.writes, kv)
 	b.writeMap[string(key)] = kv
 	b.size += len(key)
@@ -133,26 +156,16 @@ func (b *batch) DeleteRange(start, end []byte) error {
 	}
 
 	// Range-based, matching pebble's DeleteRange semantics: delete every
-	// key in [start, end). We iterate with a nil prefix (all keys), Seek
-	// to start, and stop at end. Prefix-bounded iteration would miss keys
-	// whose first bytes only partially share `start` — e.g. a chunk
-	// spanning multiple per-block entries under one address prefix.
-	it, err := b.NewIterator(nil, false)
-	if err != nil {
-		return err
+	// key in [start, end) that exists when the batch is written, not only
+	// the keys visible when DeleteRange is called.
+	kv := keyValue{
+		key:         string(start),
+		rangeEnd:    string(end),
+		deleteRange: true,
+		seq:         len(b.writes),
 	}
-	defer it.Close()
-
-	for ok := it.Seek(start); ok; ok = it.Next() {
-		if bytes.Compare(it.Key(), end) >= 0 {
-			break
-		}
-
-		if err := b.Delete(it.Key()); err != nil {
-			return err
-		}
-	}
-
+	b.writes = append(b.writes, kv)
+	b.ranges = append(b.ranges, kv)
 	return nil
 }
 
@@ -173,9 +186,16 @@ func (b *batch) Write() error {
 	}
 
 	for _, write := range b.writes {
-		if write.delete {
+		switch {
+		case write.deleteRange:
+			for k := range b.db.db {
+				if k >= write.key && k < write.rangeEnd {
+					delete(b.db.db, k)
+				}
+			}
+		case write.delete:
 			delete(b.db.db, write.key)
-		} else {
+		default:
 			b.db.db[write.key] = write.value
 		}
 	}
